@@ -106,7 +106,7 @@ func TestC08_history(t *testing.T) {
 }
 
 func TestC10_history(t *testing.T) {
-	p := profileWith(baseProfile, func(p *e2Profile) { p.weights["k-finish"] = 12; p.weights["deletePod"] = 2 })
+	p := profileWith(baseProfile, func(p *e2Profile) { p.weights["k-finish"] = 12; p.weights["deletePod"] = 2; p.weights["k-restart"] = 8 })
 	e2Check(t, "C10", "history", 1500, e2RuleCommon+"oracle: result at the terminal write and at quiescence vs the kubelet model's ground-truth outcomes; non-trivial = indexes with different outcomes or a retry; distinct = distinct trace",
 		p, []string{"C10"}, func(l []string) bool { return hasAny(l, "mixed-index-outcomes", "retry-created") })
 }
@@ -268,4 +268,83 @@ func TestC12_force(t *testing.T) {
 	})
 	e2Check(t, "C12", "force", 1200, "as history, but with a force-delete timeout of 10-20 s always configured, a third of the JobConfigs forbidding force deletion, frequent kills of Jobs whose Pods are scheduled and rarely confirmed terminated, and clock steps around the timeout; non-trivial = a force delete happened or a terminating task outlived the timeout where force deletion is forbidden; distinct = distinct trace",
 		p, []string{"C12"}, func(l []string) bool { return hasAny(l, "force-delete", "force-forbidden-outlived") })
+}
+
+// reapProfile: tasks are reaped by the pending timeout while their Pod is
+// scheduled (graceful deletion), and the terminating Pod may still start, exit
+// (also with code 0) and only then disappear.
+var reapProfile = profileWith(baseProfile, func(p *e2Profile) {
+	p.reapHeavy = true
+	p.lag = false
+	p.maxJCs, p.maxJobs, p.steps = 1, 3, 45
+	p.weights["createJob"] = 6
+	p.weights["kill"] = 1
+	p.weights["deleteJob"] = 1
+	p.weights["deletePod"] = 1
+	p.weights["k-schedule"] = 16
+	p.weights["k-run"] = 2
+	p.weights["k-finish"] = 4
+	p.weights["k-run-terminating"] = 12
+	p.weights["k-finish-terminating"] = 12
+	p.weights["k-terminate"] = 6
+	p.weights["k-restart"] = 0
+	p.weights["advance"] = 12
+	p.weights["settle"] = 16
+})
+
+func TestC08_reaped(t *testing.T) {
+	e2Check(t, "C08", "reaped", 1000, "as history, but a pending timeout of 20 s always applies, Pods are scheduled yet rarely start in time, so tasks are reaped while their Pod terminates gracefully; a terminating Pod may still start and exit (also successfully) before it disappears; 2-3 attempts; non-trivial = a task was reaped by the pending timeout and a retry was created; distinct = distinct trace",
+		reapProfile, []string{"C08"}, func(l []string) bool { return hasAny(l, "pending-timeout-delete") && hasAny(l, "retry-created") })
+}
+
+func TestC11_reaped(t *testing.T) {
+	e2Check(t, "C11", "reaped", 1000, "the reaped workload of C08 (tasks reaped by the pending timeout whose terminating Pod may still start and exit) under the C11 monitors; non-trivial = a task was reaped by the pending timeout; distinct = distinct trace",
+		reapProfile, []string{"C11"}, func(l []string) bool { return hasAny(l, "pending-timeout-delete") })
+}
+
+// TestC09_foreign: parallel Jobs, foreign Pods planted on task names the Job
+// will need, and faults concentrated on the job controller's status writes: tasks
+// created in the same pass as the collision stay unrecorded and have to be
+// adopted later although the Job may no longer create tasks.
+func TestC09_foreign(t *testing.T) {
+	p := profileWith(baseProfile, func(p *e2Profile) {
+		p.foreignHeavy, p.foreignPods, p.faults = true, true, true
+		p.lag = false
+		p.maxJCs, p.maxJobs, p.steps = 1, 3, 40
+		p.weights["createJob"] = 8
+		p.weights["plantPod"] = 10
+		p.weights["fault"] = 8
+		p.weights["settle"] = 14
+		p.weights["kill"] = 1
+		p.weights["deleteJob"] = 1
+		p.weights["deletePod"] = 1
+		p.weights["advance"] = 3
+	})
+	e2Check(t, "C09", "foreign", 1000, "as history, but every Job is parallel (2-3 indexes), foreign Pods are planted often on the next task name of some index, and the injected faults hit the job controller's own writes (mostly status updates); non-trivial = a foreign Pod was planted and a fault was injected; distinct = distinct trace",
+		p, []string{"C09"}, func(l []string) bool {
+			return hasAny(l, "foreign-pod") && hasAny(l, "fault:reject", "fault:timeout", "fault:conflict", "fault:commit-timeout")
+		})
+}
+
+// TestC10_restarts: every Pod has restartPolicy OnFailure; containers fail (also
+// by OOM) and are restarted in place, possibly several times, before they exit
+// for good - the final exit decides, not an earlier incarnation.
+func TestC10_restarts(t *testing.T) {
+	p := profileWith(baseProfile, func(p *e2Profile) {
+		p.restartHeavy = true
+		p.lag = false
+		p.maxJCs, p.maxJobs, p.steps = 2, 4, 45
+		p.weights["createJob"] = 8
+		p.weights["k-schedule"] = 12
+		p.weights["k-run"] = 12
+		p.weights["k-restart"] = 12
+		p.weights["k-finish"] = 10
+		p.weights["kill"] = 1
+		p.weights["deleteJob"] = 1
+		p.weights["deletePod"] = 1
+		p.weights["settle"] = 14
+		p.weights["advance"] = 4
+	})
+	e2Check(t, "C10", "restarts", 1000, "as history, but every Pod has restartPolicy OnFailure and containers are often restarted in place (after an error or an OOM kill) before their final exit; non-trivial = a Job became terminal after one of its containers had been restarted in place; distinct = distinct trace",
+		p, []string{"C10"}, func(l []string) bool { return hasAny(l, "container-restarted") })
 }
